@@ -245,6 +245,11 @@ pub fn next_solution<'a>(sn: Rc<RefCell<SolutionNode<'a>>>)
 
                     let mut sn_ref = sn.borrow_mut();
                     if !sn_ref.more_solutions { return None; };
+                    // The Not operator is evaluated once only. If this node
+                    // is entered again (eg. when an exhausted query is asked
+                    // for another solution), it must fail. It must not ask
+                    // its subgoal for a second solution and negate that.
+                    sn_ref.more_solutions = false;
 
                     match &sn_ref.head_sn {
                         Some(head_sn) => {
@@ -252,7 +257,6 @@ pub fn next_solution<'a>(sn: Rc<RefCell<SolutionNode<'a>>>)
                             match solution {
                                 Some(_) => return None,
                                 None => {
-                                    sn_ref.more_solutions = false;
                                     return Some(Rc::clone(&sn_ref.ss));
                                 },
                             }
